@@ -18,9 +18,17 @@ logging.disable(logging.CRITICAL)
 def run(stuffing, abort, chunks):
     reader = hdlc.HdlcFrameReader(use_octet_stuffing=stuffing, use_abort_sequence=abort)
     out = []
+    kept = []  # the list objects handed out by read(), with a snapshot taken at return time
     for ch in chunks:
-        for fr in guarded(reader.read, ch, what="HdlcFrameReader.read"):
-            out.append((guarded(lambda: fr.as_bytes), bool(guarded(lambda: fr.is_valid)), guarded(lambda: fr.payload)))
+        lst = guarded(reader.read, ch, what="HdlcFrameReader.read")
+        snap = [(guarded(lambda: fr.as_bytes), bool(guarded(lambda: fr.is_valid)), guarded(lambda: fr.payload)) for fr in lst]
+        kept.append((lst, snap))
+        out.extend(snap)
+    # a result already returned must not be changed by later calls (a caller may keep it)
+    for k, (lst, snap) in enumerate(kept):
+        now = [(fr.as_bytes, bool(fr.is_valid), fr.payload) for fr in lst]
+        if now != snap:
+            fail(f"the list returned by read() call #{k} of {len(kept)} changed after later calls: had {len(snap)} frames, now {len(now)}", sig="returned-list-mutated")
     return out, reader
 
 
@@ -160,7 +168,7 @@ def build() -> Check:
             "cut mid-header, odd octet, even octet, 5E, stuffed valid frame} x 4 configurations x {bytewise, every single cut, token "
             "boundaries, empty chunks}; non-trivial = some configuration yields a frame or ends mid-frame. Distinct = case hash."
         ),
-        assumptions=["Frames are compared as (as_bytes, is_valid, payload) tuples; the single-call result is the reference (metamorphic relation, no absolute oracle)."],
+        assumptions=["A list (and its frames) returned by read() is snapshotted at return time and compared again after all later calls: a result the caller keeps must not change.", "Frames are compared as (as_bytes, is_valid, payload) tuples; the single-call result is the reference (metamorphic relation, no absolute oracle)."],
         extra=lambda: {"exhaustive_subdomains": ["tokens: every token sequence up to the tier's length, every single cut"]},
         clauses=[
             HypClause("streams", c01.case_st, oracle_stream, quick=12000, thorough=250000),
